@@ -275,6 +275,8 @@ func runCfgLine(f []string) string {
 			}
 			return fmt.Sprintf("h=%d", b(connect(srv, addr, f[7], certs.RawStringName(tnet.ServerName), kp)))
 		})
+	case len(f) == 8 && f[0] == "cli":
+		return Guard(func() string { return runCli(f) })
 	case len(f) == 2 && f[0] == "hid" && (f[1] == "top" || f[1] == "names" || f[1] == "both"):
 		// a hidden-mode server (HiddenModeVHostNames set) whose KEM key is configured at the top level, only in
 		// the virtual host's block, or in both: it is silent towards a discoverable ClientHello and serves the
@@ -400,4 +402,5 @@ func genCfg(g *GenCtx) {
 	}
 	g.Op("cfg toml x a a a 0 ok 0")
 	g.Op("sni frob")
+	genCli(g)
 }
